@@ -26,7 +26,7 @@ theorem runNew_refines (cs : List Char) (hnul : ∀ c ∈ cs, c.toNat ≠ 0) (n 
     simp only [runNew, hnew, hne, if_false]
     have hrel : Rel (Spec.encode cs) n i (Spec.init cs) 0 0 (min n (Spec.encode cs).length) 0 := {
       inv := hinv
-      tail := rfl
+      tail := Or.inl rfl
       src := by simp [Spec.init, Spec.encode]
       lex := ⟨Nat.le_refl _, by simp [Spec.init, Spec.encode], by simp [Spec.init, Spec.encode],
               by rw [hfresh.lexemeBegin]; simp [Spec.init, Spec.encode, idx]; omega⟩
@@ -36,7 +36,42 @@ theorem runNew_refines (cs : List Char) (hnul : ∀ c ∈ cs, c.toNat ≠ 0) (n 
       line := by rw [hfresh.line]; rfl
       column := by rw [hfresh.column]; rfl
       cols := by rw [hfresh.nextColumn, hfresh.lastColumns, hfresh.column]; rfl }
-    rw [run_refines (nulFree_encode cs hnul) ops i _ _ _ _ _ hrel hkeep]
+    rw [run_refines (nulFree_encode cs hnul) ops i _ _ _ _ _ hrel rfl hkeep]
+
+
+/-- the Spec state before any call for a source whose well-formed runes `cs` are followed by the bytes `tail` -/
+def Spec.initT (cs : List Char) (tail : List UInt8) : Spec.State :=
+  { flushed := [], pending := [], rest := cs, tail := tail }
+
+/-- `runNew_refines` for a source with an ill-formed tail: the trace agrees with the Spec up to and including the
+first report of the ill-formed sequence. -/
+theorem runNew_refines_upTo (cs : List Char) (tail : List UInt8) (k : Nat) (hbad : decodeRune tail = .invalid k)
+    (hnul : NulFree (Spec.encode cs ++ tail)) (n : Nat) (hn : 0 < n)
+    (script : List Answer) (tailEof : Bool) (hio : ∀ a ∈ script, a.flag ≠ .ioerr)
+    (ops : List Op) (hkeep : Spec.Keeps n (Spec.initT cs tail) ops) :
+    ∃ outs, runNew ⟨Spec.encode cs ++ tail, script, tailEof⟩ n ops = .ran outs ∧
+      outs.take (upToInvalid (Spec.run (Spec.initT cs tail) ops)).length
+        = (upToInvalid (Spec.run (Spec.initT cs tail) ops)).map .ok := by
+  have hne : Spec.encode cs ++ tail ≠ [] := by
+    intro h
+    have : tail = [] := (List.append_eq_nil_iff.mp h).2
+    rw [this] at hbad; simp [decodeRune] at hbad
+  rcases new_spec (Spec.encode cs ++ tail) script tailEof n hn hio with ⟨hS, _⟩ | ⟨_, i, hnew, hinv, hfresh⟩
+  · exact absurd hS hne
+  · have hrel : Rel (Spec.encode cs ++ tail) n i (Spec.initT cs tail) 0 0
+        (min n (Spec.encode cs ++ tail).length) 0 := {
+      inv := hinv
+      tail := Or.inr ⟨k, hbad⟩
+      src := by simp [Spec.initT, Spec.encode]
+      lex := ⟨Nat.le_refl _, by simp [Spec.initT, Spec.encode], by simp [Spec.initT, Spec.encode],
+              by rw [hfresh.lexemeBegin]; simp [Spec.initT, Spec.encode, idx]; omega⟩
+      pos := by simp [Spec.initT, Spec.encode]
+      sizes := by rw [hfresh.runeSizes]; rfl
+      offset := by rw [hfresh.offset]; rfl
+      line := by rw [hfresh.line]; rfl
+      column := by rw [hfresh.column]; rfl
+      cols := by rw [hfresh.nextColumn, hfresh.lastColumns, hfresh.column]; rfl }
+    exact ⟨i.run ops, by simp only [runNew, hnew], run_refines_upTo hnul ops i _ _ _ _ _ hrel hkeep⟩
 
 /-! ## the Spec's own bookkeeping -/
 
